@@ -189,7 +189,9 @@ def liouville_is_CP(
     choi = liouville_to_choi(superoperator, basis)
     D, V = nla.eigh(choi)
 
-    CP = (D >= -(atol or basis._atol)).all(axis=-1)
+    # Default tolerance relative to the largest eigenvalue (numerical noise scales with it)
+    tol = atol or basis._atol*np.maximum(1, np.abs(D).max(axis=-1, keepdims=True))
+    CP = (D >= -tol).all(axis=-1)
 
     if return_eig:
         return CP, (D, V)
@@ -262,7 +264,9 @@ def liouville_is_cCP(
     choi = liouville_to_choi(superoperator, basis)
     D, V = nla.eigh(Q @ choi @ Q)
 
-    cCP = (D >= -(atol or basis._atol)).all(axis=-1)
+    # Default tolerance relative to the largest eigenvalue (numerical noise scales with it)
+    tol = atol or basis._atol*np.maximum(1, np.abs(D).max(axis=-1, keepdims=True))
+    cCP = (D >= -tol).all(axis=-1)
 
     if return_eig:
         return cCP, (D, V)
